@@ -8,6 +8,9 @@
 (*   q     quote character of an attribute: "dq" | "sq"                         *)
 (*   v     length of the value in bytes (0 = the property's natural value)      *)
 (*   ws    white space in front of the token: "sp" | "nl" | "nlsp" | "sp3"      *)
+(*   c     content class of a text value: "plain" | "oq" (the value holds the   *)
+(*         quote character that does NOT delimit it - legal XML - and, in an    *)
+(*         element, both quote characters)                                      *)
 (* Attributes precede elements (XML).  The reader consumes one token at a time  *)
 (* through a look-ahead window that GROWS in fixed steps up to the size of its  *)
 (* buffer (Buf = 1538): attribute values 256, +512; element values 512, +512.   *)
@@ -24,7 +27,7 @@ EXTENDS Integers, Sequences, FiniteSets, TLC, Json, CSV
 CONSTANTS TextProps,   \* ids of text-valued properties (value length is free)
           FixedProps,  \* ids of numeric/date/uuid properties (natural value, v = 0)
           VLens,       \* value lengths for text properties
-          MaxItems, Forms, Quotes, WSs,
+          MaxItems, Forms, Quotes, WSs, Contents,
           Mode,        \* "design" | "edge"
           OutFile
 
@@ -35,10 +38,10 @@ ValWins  == <<512, 1024, 1536>>     \* s := 512; s += 512
 VARIABLES items, k, wi, out, err, pc, grows
 vars == <<items, k, wi, out, err, pc, grows>>
 
-Item(p, f, q, v, w) == [p |-> p, form |-> f, q |-> q, v |-> v, ws |-> w]
-ItemsOver(P) == {Item(p, f, q, v, w) : p \in P, f \in Forms, q \in Quotes, v \in VLens, w \in WSs}
-Candidates == {it \in ItemsOver(TextProps) : (it.form = "elem" => it.q = "dq")}
-          \cup {Item(p, f, "dq", 0, w) : p \in FixedProps, f \in Forms, w \in WSs}
+Item(p, f, q, v, w, c) == [p |-> p, form |-> f, q |-> q, v |-> v, ws |-> w, c |-> c]
+ItemsOver(P) == {Item(p, f, q, v, w, c) : p \in P, f \in Forms, q \in Quotes, v \in VLens, w \in WSs, c \in Contents}
+Candidates == {it \in ItemsOver(TextProps) : (it.form = "elem" => it.q = "dq") /\ (it.c = "oq" => it.v >= 3)}
+          \cup {Item(p, f, "dq", 0, w, "plain") : p \in FixedProps, f \in Forms, w \in WSs}
 \* attributes first, then elements; a property occurs once
 WellOrdered(s) == /\ \A a, b \in 1..Len(s) : a < b => ~(s[a].form = "elem" /\ s[b].form = "attr")
                   /\ \A a, b \in 1..Len(s) : a # b => s[a].p # s[b].p
